@@ -1,5 +1,6 @@
 import Gmx.Model.Access
 import Gmx.Gen.StoreBinding
+import Gmx.Gen.ConstraintFacts
 import Gmx.Driver.Util
 -- ENGINE c19 C19.c19Engine stateless
 /-! driver engine `c19` — does a caller holding exactly one role (or none) pass the generated
@@ -21,7 +22,10 @@ def c19Engine (args : List String) : String :=
     | none => "noix"
     | some i =>
       let has : Role → Bool := fun r => r.name == role
-      if guardOk (info i).attr has then "passed"
+      -- `validate_timelocked_role(ctx, role)` with the (empty) role argument of the synthesised call: the caller
+      -- must hold `timelocked_role("") = "__TLD_"`
+      if handlerAuth i == .timelockedRole then (if role == "__TLD_" then "passed" else "denied same")
+      else if guardOk (info i).attr has then "passed"
       -- Anchor `init` creates the account during account validation, before the guard: natively
       -- that creation is visible (on chain the failed transaction rolls it back)
       else if (info i).inits > 0 then "denied init-only" else "denied same"
@@ -40,6 +44,11 @@ def c19Engine (args : List String) : String :=
         | .unbound => "accepted"
         | .noStore => "accepted"
         | _ => "rejected clean"
+  | ["scall", prog, ix, acct, target] =>
+    -- the right caller presents a SIBLING of `acct`: same type and store, but related to a different `target`
+    match IxId.all.find? (fun i => i.name == prog ++ "::" ++ ix) with
+    | none => "noix"
+    | some i => if (Gmx.Gen.ConstraintFacts.hasOnes i).contains (acct, target) then "rejected clean" else "accepted"
   | ["count"] => s!"ok {IxId.all.length}"
   | _ => "bad-op"
 
